@@ -652,6 +652,145 @@ Section Rerun.
     - eapply seg_mid; eauto.
   Qed.
 
+
+  (* ---------------------------------------------------------------- *)
+  (* progress: how many calls a driven run can take                      *)
+  (* ---------------------------------------------------------------- *)
+  (* Every call executes at least one node (a resumed call starts from pending tasks); its completed executions
+     are executions of the uninterrupted run, each counted once; its aborted attempts use up a BUDGET that the
+     environment carries (for the model: the entries of the rerun tables not yet reached). *)
+  Definition nab (l : list eventT) : nat := List.length (filter (fun ev => ev_abort ev) l).
+
+  Lemma len_good_nab : forall l : list eventT, List.length l = (List.length (good l) + nab l)%nat.
+  Proof.
+    unfold good, nab. induction l as [|ev l IH]; simpl; [reflexivity|].
+    destruct (ev_abort ev); simpl; lia.
+  Qed.
+
+  Lemma nab_app : forall a b : list eventT, nab (a ++ b) = (nab a + nab b)%nat.
+  Proof. intros; unfold nab. rewrite filter_app, app_length. reflexivity. Qed.
+
+  Section Budget.
+    Variable budget : ENV -> nat.
+    Hypothesis H_budget : forall k cp v e r e', execR k cp v e = (r, e') ->
+      (budget e' + (if is_rerun r then 1 else 0) <= budget e)%nat.
+
+    Lemma exec_all_budget : forall (ts : list taskT) env,
+      (budget (snd (exec_all execR ts env)) + nab (events_of ts (fst (exec_all execR ts env))) <= budget env)%nat.
+    Proof.
+      induction ts as [|t ts IH]; intros env; simpl; [unfold nab; simpl; lia|].
+      destruct (execR (t_key t) (t_cp t) (t_in t) env) as [r env1] eqn:He.
+      pose proof (H_budget _ _ _ _ _ _ He) as Hb.
+      specialize (IH env1). destruct (exec_all execR ts env1) as [rest env2]. simpl in *.
+      unfold nab in *; simpl. destruct (is_rerun r); simpl; lia.
+    Qed.
+
+    Lemma events_of_len : forall (ts : list taskT) (rs : list (N * texecT)),
+      List.length rs = List.length ts -> List.length (events_of ts rs) = List.length ts.
+    Proof.
+      induction ts as [|t ts IH]; intros [|r rs] H; simpl in *; try discriminate; try reflexivity.
+      f_equal. apply IH. lia.
+    Qed.
+
+    Lemma exec_all_len : forall (E : Type) (ex : N -> option SCP -> V -> E -> texecT * E) (ts : list taskT) (env : E),
+      List.length (fst (exec_all ex ts env)) = List.length ts.
+    Proof.
+      intros E ex. induction ts as [|t ts IH]; intros env; simpl; [reflexivity|].
+      destruct (ex (t_key t) (t_cp t) (t_in t) env) as [r env1].
+      specialize (IH env1). destruct (exec_all ex ts env1) as [rest env2]. simpl in *. lia.
+    Qed.
+
+    Lemma run_pres_len : forall (ts : list taskT) gs, List.length (fst (run_pres pre ts gs)) = List.length ts.
+    Proof.
+      induction ts as [|t ts IH]; intros gs; simpl; [reflexivity|].
+      destruct (if t_skip t then (t_in t, gs) else pre (t_key t) (t_in t) gs) as [v gs1].
+      specialize (IH gs1). destruct (run_pres pre ts gs1) as [rest gs2]. simpl in *. lia.
+    Qed.
+
+    (* one segment: the log grows by at least the tasks of its first step, the budget pays for the aborts *)
+    Lemma iterR_budget : forall fuel (s : lstateT) env log o l env',
+      iterR fuel s env log = (o, l, env') ->
+      (budget env' + nab l <= budget env + nab log)%nat /\ (List.length log <= List.length l)%nat /\
+      (fuel <> O -> List.length log + List.length (ls_next s) <= List.length l)%nat.
+    Proof.
+      induction fuel as [|f IH]; intros s env log o l env' H; simpl in H.
+      { inversion H; subst. repeat split; try lia; try (intros C; congruence). }
+      unfold step in H.
+      destruct (run_pres pre (ls_next s) (ls_gs s)) as [ts gs1] eqn:Hp.
+      pose proof (exec_all_budget ts env) as Hb. pose proof (exec_all_len ENV execR ts env) as Hl.
+      destruct (exec_all execR ts env) as [rs env1]. simpl in Hb, Hl.
+      pose proof (events_of_len ts rs Hl) as Hel.
+      pose proof (run_pres_len (ls_next s) (ls_gs s)) as Hpl. rewrite Hp in Hpl. simpl in Hpl.
+      destruct (decideR (ls_cs s) gs1 rs) as [s'|v|i c|e].
+      - destruct (IH _ _ _ _ _ _ H) as (B1 & B2 & _). rewrite nab_app in B1. rewrite app_length in B2.
+        repeat split; try lia.
+      - inversion H; subst. rewrite nab_app, app_length. repeat split; try lia.
+      - inversion H; subst. rewrite nab_app, app_length. repeat split; try lia.
+      - inversion H; subst. rewrite nab_app, app_length. repeat split; try lia.
+    Qed.
+
+    Lemma iterU_len : forall fuel (s : lstateT) log o l,
+      iterU fuel s tt log = (o, l, tt) -> fuel <> O ->
+      (List.length log + List.length (ls_next s) <= List.length l)%nat /\ (List.length log <= List.length l)%nat.
+    Proof.
+      induction fuel as [|f IH]; intros s log o l H Hf; [congruence|]. simpl in H.
+      unfold step in H.
+      destruct (run_pres pre (ls_next s) (ls_gs s)) as [ts gs1] eqn:Hp.
+      pose proof (exec_all_len unit execU ts tt) as Hl.
+      destruct (exec_all execU ts tt) as [rs []]. simpl in Hl.
+      pose proof (events_of_len ts rs Hl) as Hel.
+      pose proof (run_pres_len (ls_next s) (ls_gs s)) as Hpl. rewrite Hp in Hpl. simpl in Hpl.
+      destruct (decideU (ls_cs s) gs1 rs) as [s'|v|i c|e].
+      - destruct f as [|f'].
+        + simpl in H. inversion H; subst. rewrite app_length. lia.
+        + destruct (IH s' (log ++ events_of ts rs) o l H ltac:(congruence)) as [_ B2].
+          rewrite app_length in B2. lia.
+      - inversion H; subst. rewrite app_length. lia.
+      - inversion H; subst. rewrite app_length. lia.
+      - inversion H; subst. rewrite app_length. lia.
+    Qed.
+
+    (* an uninterrupted run that ends Done starts from a non-empty task set *)
+    Lemma iterU_done_next : forall fuelU (sU : lstateT) vU lU,
+      iterU fuelU sU tt [] = (ODone vU, lU, tt) -> fuelU <> O /\ ls_next sU <> [].
+    Proof.
+      intros fuelU sU vU lU H. destruct fuelU as [|f]; [simpl in H; discriminate|].
+      split; [congruence|]. intros Hn. simpl in H. unfold step in H. rewrite Hn in H. simpl in H.
+      inversion H.
+    Qed.
+
+    (* what is already credited lies within the uninterrupted run that remains *)
+    Lemma rel_credit_len : forall c (sU : lstateT) credit fuelU vU lU,
+      rel c sU credit -> iterU fuelU sU tt [] = (ODone vU, lU, tt) -> (List.length credit <= List.length lU)%nat.
+    Proof.
+      intros c sU credit fuelU vU lU Hr HU. destruct Hr as [Hc|D S Hm]; [simpl; lia|].
+      destruct (iterU_done_next _ _ _ _ HU) as [Hf _].
+      destruct (iterU_len _ _ _ _ _ HU Hf) as [B _]. simpl in B.
+      pose proof (Permutation_length (mid_perm _ _ _ _ Hm)) as Hpl. rewrite app_length in Hpl.
+      unfold subm in Hpl. rewrite run_pres_len in Hpl.
+      unfold evs. rewrite map_length. lia.
+    Qed.
+
+    (* a resumed call executes at least one node *)
+    Lemma resumed_call_runs : forall c (sU : lstateT) credit fuelU vU lU fuelR env o l env',
+      rel c sU credit -> iterU fuelU sU tt [] = (ODone vU, lU, tt) -> fuelR <> O ->
+      resumeR fuelR (fun g => g) c env = (o, l, env') ->
+      (1 <= List.length l)%nat /\ (budget env' + nab l <= budget env)%nat.
+    Proof.
+      intros c sU credit fuelU vU lU fuelR env o l env' Hr HU Hf H. unfold resume in H.
+      destruct (iterR_budget _ _ _ _ _ _ _ H) as (B1 & _ & B3). specialize (B3 Hf).
+      unfold nab in B1 at 2. simpl in B1, B3.
+      split; [|lia].
+      assert (Hin : (1 <= List.length (cp_inputs c))%nat).
+      { destruct Hr as [Hc|D S Hm].
+        - subst c. simpl. rewrite map_length. destruct (iterU_done_next _ _ _ _ HU) as [_ Hn].
+          destruct (ls_next sU); [congruence|simpl; lia].
+        - rewrite (mid_in _ _ _ _ Hm), map_length. pose proof (mid_S _ _ _ _ Hm) as Hs.
+          destruct S; [congruence|simpl; lia]. }
+      unfold restore, with_gs in B3. simpl in B3. rewrite map_length in B3. lia.
+    Qed.
+  End Budget.
+
   (* ---------------------------------------------------------------- *)
   (* the run driven through the store                                   *)
   (* ---------------------------------------------------------------- *)
@@ -786,5 +925,108 @@ Section Rerun.
         + left; exact Hi.
         + right. split; auto. unfold all_logs in *; simpl. rewrite <- Hrest'. exact Hp2.
     Qed.
+
+    (* ---------- progress ---------- *)
+    Section DriveProgress.
+      Variable budget : ENV -> nat.
+      Hypothesis H_budget : forall k cp v e r e', execR k cp v e = (r, e') ->
+        (budget e' + (if is_rerun r then 1 else 0) <= budget e)%nat.
+
+      (* a driven run whose last call is still interrupted has made all its calls, each of which executed a node:
+         a completed execution of the uninterrupted run not yet credited, or an aborted attempt paid by the budget *)
+      Lemma drive_progress : forall (fresh : freshT) n k c (sU : lstateT) credit fuelU vU lU env cos env' cos' co,
+        rel c sU credit -> WF sU -> iterU fuelU sU tt [] = (ODone vU, lU, tt) -> (fuelU <= fuelR)%nat ->
+        drive ser deser fresh (resumeR fuelR) (fun _ e => e) true n k (fun _ g => g) (Some (ser c)) env = (cos, env') ->
+        cos = cos' ++ [co] -> is_interrupt (co_out co) ->
+        (n + 1 + List.length credit <= List.length lU + budget env)%nat.
+      Proof.
+        intros fresh. induction n as [|n IH];
+          intros k c sU credit fuelU vU lU env cos env' cos' co Hr Hwf HU Hle Hd Hcos Hint;
+          rewrite (drive_unfold ser deser) in Hd; unfold call in Hd; rewrite H_ser in Hd;
+          pose proof (call_rel fuelU sU vU lU c credit Hr Hwf HU fuelR env Hle) as Hseg;
+          destruct (iterU_done_next _ _ _ _ HU) as [HfU _];
+          assert (HfR : fuelR <> O) by lia;
+          destruct (resumeR fuelR (fun g => g) c env) as [[o l] e1] eqn:Hres;
+          destruct (resumed_call_runs budget H_budget c sU credit fuelU vU lU fuelR env o l e1 Hr HU HfR Hres) as [Hl1 Hb];
+          pose proof (len_good_nab l) as Hgn;
+          destruct Hseg as [[Ho Hp]|(i & c2 & sU' & fU' & lU1 & lU2 & cr' & Ho & Hr' & Hwf' & Hle' & HU' & HlU & Hp)];
+          subst o; simpl in Hd.
+        - inversion Hd; subst. destruct cos' as [|? [|? ?]]; inversion H0; subst.
+          destruct Hint as (i & c' & Hi). simpl in Hi. discriminate.
+        - pose proof (rel_credit_len c2 sU' cr' fU' vU lU2 Hr' HU') as Hcl.
+          apply Permutation_length in Hp. rewrite !app_length in Hp. subst lU. rewrite app_length. lia.
+        - inversion Hd; subst. destruct cos' as [|? [|? ?]]; inversion H0; subst.
+          destruct Hint as (i & c' & Hi). simpl in Hi. discriminate.
+        - destruct (drive ser deser fresh (resumeR fuelR) (fun _ e => e) true n (S k) (fun _ g => g) (Some (ser c2)) e1)
+            as [rest e2] eqn:Hrest.
+          injection Hd as Hd1 Hd2. rewrite <- Hd1 in Hcos. clear Hd1.
+          pose proof (drive_nonempty _ _ _ _ _ _ _ _ _ _ _ Hrest) as Hne.
+          destruct cos' as [|co0 cos'']; simpl in Hcos.
+          { inversion Hcos; subst. congruence. }
+          inversion Hcos as [[Hco0 Hrest']]. subst co0.
+          pose proof (IH (S k) c2 sU' cr' fU' vU lU2 e1 rest e2 cos'' co Hr' Hwf' HU' ltac:(lia) Hrest Hrest' Hint) as Hn.
+          apply Permutation_length in Hp. rewrite !app_length in Hp. subst lU. rewrite app_length. lia.
+      Qed.
+
+      (* the run with rerun nodes and interrupt points, driven through the store, takes at most
+         1 + (executions of the uninterrupted run) + (budget of aborted attempts) calls *)
+      Lemma rerun_progress_l : forall fuelU vU lU n env cos env' cos' co,
+        Inv cs0 -> GOK gs0 ->
+        start zero fold getr pre execU [] [] fuelU cs0 gs0 x tt = (ODone vU, lU, tt) ->
+        (fuelU <= fuelR)%nat ->
+        drive ser deser (start zero fold getr pre execR before after fuelR cs0 gs0 x) (resumeR fuelR)
+              (fun _ e => e) true n 0 (fun _ g => g) None env = (cos, env') ->
+        cos = cos' ++ [co] -> is_interrupt (co_out co) ->
+        (n <= List.length lU + budget env)%nat.
+      Proof.
+        intros fuelU vU lU n env cos env' cos' co Hi0 Hg0 HU Hle Hd Hcos Hint.
+        rewrite (drive_unfold ser deser) in Hd. unfold call in Hd.
+        unfold start, start_gen, init_gen in HU, Hd.
+        destruct (calc fold getr cs0 [(kStart, x)]) as [[cs1 ready]| |] eqn:Hc; simpl in HU; try discriminate.
+        destruct (nlist_get kEnd ready) eqn:He.
+        { simpl in HU, Hd. inversion HU; subst. inversion Hd; subst.
+          destruct cos' as [|? [|? ?]]; inversion H0; subst. destruct Hint as (i & c' & Hi). simpl in Hi. discriminate. }
+        rewrite hits_nil' in HU. simpl in HU.
+        destruct (calc_facts _ _ _ _ Hi0 Hc) as (Hi1 & _ & Hnd).
+        set (s0 := {| ls_cs := cs1; ls_next := map mk_task ready; ls_gs := gs0 |}) in *.
+        assert (Hwf0 : WF s0).
+        { split; [exact Hi1|]. split; [apply map_mk_task_fresh|]. split; [|exact Hg0].
+          simpl. rewrite map_map; simpl; exact Hnd. }
+        simpl in Hd.
+        destruct (is_nil (hits before ready)) eqn:Hh; simpl in Hd.
+        - pose proof (seg_plain fuelU s0 vU lU Hwf0 HU fuelR env Hle) as Hseg.
+          destruct (iterR fuelR s0 env []) as [[o l] e1] eqn:Hit.
+          destruct (iterR_budget budget H_budget _ _ _ _ _ _ _ Hit) as (Hb & _ & _).
+          unfold nab in Hb at 2. simpl in Hb.
+          pose proof (len_good_nab l) as Hgn.
+          destruct Hseg as [[Ho Hp]|(i & c2 & sU' & fU' & lU1 & lU2 & cr' & Ho & Hr' & Hwf' & Hle' & HU' & HlU & Hp)];
+            subst o; simpl in Hd.
+          + inversion Hd; subst. destruct cos' as [|? [|? ?]]; inversion H0; subst.
+            destruct Hint as (i & c' & Hi). simpl in Hi. discriminate.
+          + destruct n as [|n]; [lia|].
+            match type of Hd with context[drive ser deser ?f _ _ true n 1%nat] =>
+              destruct (drive ser deser f (resumeR fuelR) (fun _ e => e) true n 1%nat (fun _ g => g) (Some (ser c2)) e1)
+                as [rest e2] eqn:Hrest end.
+            injection Hd as Hd1 Hd2. rewrite <- Hd1 in Hcos. clear Hd1.
+            pose proof (drive_nonempty _ _ _ _ _ _ _ _ _ _ _ Hrest) as Hne.
+            destruct cos' as [|co0 cos'']; simpl in Hcos.
+            { inversion Hcos; subst. congruence. }
+            inversion Hcos as [[Hco0 Hrest']]. subst co0.
+            pose proof (drive_progress _ n 1%nat c2 sU' cr' fU' vU lU2 e1 rest e2 cos'' co Hr' Hwf' HU' ltac:(lia) Hrest Hrest' Hint) as Hn.
+            simpl in Hp. apply Permutation_length in Hp. rewrite !app_length in Hp. subst lU. rewrite app_length. lia.
+        - unfold plain_interrupt in Hd. rewrite save_mk in Hd. fold s0 in Hd. simpl in Hd.
+          destruct n as [|n]; [lia|].
+          match type of Hd with context[drive ser deser ?f _ _ true n 1%nat] =>
+            destruct (drive ser deser f (resumeR fuelR) (fun _ e => e) true n 1%nat (fun _ g => g) (Some (ser (save s0))) env)
+              as [rest e2] eqn:Hrest end.
+          injection Hd as Hd1 Hd2. rewrite <- Hd1 in Hcos. clear Hd1.
+          pose proof (drive_nonempty _ _ _ _ _ _ _ _ _ _ _ Hrest) as Hne.
+          destruct cos' as [|co0 cos'']; simpl in Hcos.
+          { inversion Hcos; subst. congruence. }
+          inversion Hcos as [[Hco0 Hrest']]. subst co0.
+          pose proof (drive_progress _ n 1%nat (save s0) s0 [] fuelU vU lU env rest e2 cos'' co (rel_plain _ _ eq_refl) Hwf0 HU Hle Hrest Hrest' Hint) as Hn.
+          simpl in Hn. lia.
+      Qed.
+    End DriveProgress.
   End DriveRerun.
 End Rerun.
